@@ -344,7 +344,10 @@ class Proj:
                     deps.append(e)
             own_start = ov.get("start", t.start)
             own_end = ov.get("end", t.end)
-            fwd = (t.mode != "alap") if t.mode else True
+            x = t
+            while x is not None and not x.mode:
+                x = x.parent                   # `scheduling` is inherited from the nearest container that states one
+            fwd = (x.mode != "alap") if x is not None else True
             # effort and allocation written on a container are inherited by the tasks below that have none of their own;
             # a task flagged `milestone` has no work whatever it inherits
             eff_i, alloc_i, alt_i = int(ov.get("effort", t.effort)), t.alloc, t.alt
@@ -862,6 +865,32 @@ def dags_alap(rng, n):
                 if not k.kids:
                     k.end = None
         out.append(("b" + pid, p))
+    # work packages inside a dated release: `w1` must be over before its sibling `w10` (or `w1_docs`, `w1x`) begins.  The ids
+    # share a prefix although neither is inside the other; the release's end is the deadline of whatever has no successor.
+    for i in range(max(2, n // 6)):
+        G = rng.choice([3600, 3600, 1800])
+        start = datetime(2025, 2, 3)
+        p = Proj(start=start, G=G, length="+8w", alap=rng.random() < 0.5)
+        rs = [p.add_res("r%d" % k) for k in range(3)]
+        rel = p.add_task("rel")
+        rel.end = start + timedelta(days=rng.randint(18, 30), hours=17)
+        if not p.alap:
+            rel.mode = "alap"
+        base = rng.choice(["w1", "ph", "build"])
+        first = p.add_task(base, parent=rel)
+        for k in range(rng.randint(1, 3)):
+            p.add_task("s%d" % k, parent=first, effort=G * rng.randint(4, 20), alloc=[rng.choice(rs)])
+        for sfx in rng.sample(["0", "_docs", "x", "1"], rng.randint(1, 2)):
+            nxt = p.add_task(base + sfx, parent=rel)
+            gap = G * rng.choice([0, 0, 8, 24])
+            if rng.random() < 0.6:
+                nxt.deps.append((first, False, gap))            # written on the container: inherited by everything inside
+                for k in range(rng.randint(1, 2)):
+                    p.add_task("d%d" % k, parent=nxt, effort=G * rng.randint(2, 12), alloc=[rng.choice(rs)])
+            else:
+                for k in range(rng.randint(1, 2)):
+                    p.add_task("d%d" % k, parent=nxt, effort=G * rng.randint(2, 12), alloc=[rng.choice(rs)], deps=[(first, False, gap)])
+        out.append(("bpre%04d" % i, p))
     return out
 
 
